@@ -400,6 +400,40 @@ def surface_agrees(ctx, r):
             r.note("%s: no plain Ok(Some)/Ok(None) aggregate exits in its view (left to R3)" % root.path)
 
 
+def _fold_over_keys(ctx, b, key_leaves):
+    """If `b` is (the view of) a closure handed to a whole-iteration adaptor and the removed key is that closure's item
+    parameter: (does the adaptor's receiver run over the op's key list?, adaptor name).  None if `b` is no such closure."""
+    from ..prov import _closure_sites
+    prog = ctx.prog
+    root = prog.bodies.get(b.path)
+    if root is None or not root.is_closure:
+        return None
+    if not key_leaves or not all(l[0] == "param" and l[1] >= 2 and not l[2] for l in key_leaves):
+        return None
+    item_params = set(l[1] for l in key_leaves)
+    for (pb, bb, rv) in _closure_sites(prog, root.path):
+        # the call that receives the closure value
+        for s in pb.calls():
+            nm = (s.path or "").split("::")[-1]
+            if nm not in ("try_fold", "try_for_each", "for_each", "fold"):
+                continue
+            takes = False
+            for a in s.term["args"]:
+                pl = place_of(a)
+                if pl is not None and not pl["p"] and prog.closure_def_of_type(pb.locals[pl["l"]]) == root.path:
+                    takes = True
+            if not takes:
+                continue
+            # the item is the closure's last parameter
+            if item_params != {root.argc}:
+                return (False, nm)
+            psl = Slicer(ctx.world, pb)
+            recv = psl.leaves_of_operand(s.term["args"][0])
+            ok = bool(recv) and all(l[0] == "param" and leaf_role(ctx, pb, l) == "key" for l in recv)
+            return (ok, nm)
+    return None
+
+
 def derives_from(ctx, body, sl, op, pred, depth=0):
     """Does the operand derive (through calls and their arguments) from a call whose events satisfy pred?"""
     if depth > 6:
@@ -458,6 +492,15 @@ def apply_denotes(ctx, r):
                                 fname, site_where(cu.site), sorted(fmt_leaf(l) for l in v), want), site_where(cu.site))
             elif cu.method == "remove":
                 k = sl.leaves_of_operand(args[1])
+                folded = _fold_over_keys(ctx, b, k)
+                if folded is not None:
+                    # `keys.iter().try_fold(acc, |acc, key| { remove(key) .. })`: the closure runs once per key of the op,
+                    # an Err it returns ends the fold and is what the fold returns
+                    r.check(folded[0], "remove-key", b,
+                            "removed key = the item of %s over the op's key list" % folded[1],
+                            "the key removed at %s is the item of %s, which does not run over the op's key list" % (
+                                site_where(cu.site), folded[1]), site_where(cu.site))
+                    continue
                 okk = bool(k) and all(l[0] == "param" and leaf_role(ctx, b, l) == "key" for l in k)
                 r.check(okk, "remove-key", b, "removed key = %s (loop item of the op's key list)" % sorted(fmt_leaf(l) for l in k),
                         "the key removed at %s has origins %s (expected: an item of the op's key list)" % (
@@ -482,6 +525,8 @@ def apply_denotes(ctx, r):
                         continue
                     # error propagation: leads to an Err return
                     blocks = cfgutil.reach(b, s2)
+                    if not any(b.blocks[y]["term"]["k"] == "return" for y in blocks):
+                        continue        # ends in a panic (a failed assertion): nothing is returned, least of all Ok
                     if any(rf.forwarded.get(y) == "err" for y in blocks) and not any(rf.forwarded.get(y) == "ok" for y in blocks - {None}):
                         continue
                     # ... possibly through the return of an inlined helper: every way from here to a return builds an
